@@ -7,7 +7,7 @@
 # read the counters, compare "ran again?" with
 #   (i)  the extracted Coq model (BSys/DirTree.v: observe -> rebuild -> tree_toks / struct_toks, database state threaded),
 #   (ii) the property oracle computed from the two snapshots only.
-import os, json, shutil, stat, fnmatch, copy
+import os, json, shutil, stat, copy, ctypes
 import vlib
 from vlib import hx
 
@@ -192,11 +192,19 @@ def rsnap(root, maxdepth=10):
     rec(root, "", 0)
     return out
 
+_libc = ctypes.CDLL(None)
+_libc.fnmatch.argtypes = [ctypes.c_char_p, ctypes.c_char_p, ctypes.c_int]
+_libc.fnmatch.restype = ctypes.c_int
+
+def c_fnmatch(pat, name):
+    """the C library's fnmatch(pattern, name, 0) == 0: what filenameMatch calls (Python's fnmatch module has no backslash escapes)"""
+    return _libc.fnmatch(os.fsencode(pat), os.fsencode(name), 0) == 0
+
 def is_excluded(rel, pats):
-    """a path is hidden when one of its components beneath the root matches a pattern (Python's own fnmatch)"""
+    """a path is hidden when one of its components beneath the root matches a pattern (libc fnmatch, flags 0)"""
     if not rel or not pats:
         return False
-    return any(fnmatch.fnmatchcase(c, p) for c in rel.split("/") for p in pats)
+    return any(c_fnmatch(p, c) for c in rel.split("/") for p in pats)
 
 def visible(snap, pats):
     return {k: v for k, v in snap.items() if not is_excluded(k, pats)}
@@ -299,9 +307,12 @@ def missed_key(cmd, hints, cats):
 
 # ------------------------------------------------------------------ generation
 
-FILE_NAMES = ["a", "b.txt", "c d", ".hid", "m.c", "x.tmp", "skip1", "n 1.tmp", "k", "zz"]
-DIR_NAMES = ["sub", "sub dir", "z.d", "inc", "zz top", "skip2", "o.tmp"]
-PATTERN_SETS = [["*.tmp"], ["*.tmp", "skip?"], ["x.*", "n ?.tmp", "skip1"], [".*", "*.tmp"]]
+FILE_NAMES = ["a", "b.txt", "c d", ".hid", "m.c", "x.tmp", "skip1", "n 1.tmp", "k", "zz", "a*b", "b\\c"]
+DIR_NAMES = ["sub", "sub dir", "z.d", "inc", "zz top", "skip2", "o.tmp", ".cache"]
+# plain names, globs, backslash escapes without any glob character ("\\.hid" hides ".hid", "a\\*b" hides the name "a*b",
+# "b\\\\c" hides the name with one backslash), bracket expressions
+PATTERN_SETS = [["*.tmp"], ["*.tmp", "skip?"], ["x.*", "n ?.tmp", "skip1"], [".*", "*.tmp"],
+                ["\\.hid", "\\.cache"], ["a\\*b", "k", "*.tmp"], ["b\\\\c", "x\\.tmp"], ["skip[0-9]", "[!a-y]*"], ["[ab]", "\\.cache", "o.tmp"]]
 
 def gen_spec(rng, depth, maxdepth, fan, link_targets):
     """a directory spec; the entry that sorts last is usually a directory so that edits land beneath a last child"""
@@ -395,7 +406,7 @@ def gen_edit(rng, sb, family, pats):
     vis = lambda l: [o for o in l if not o[3]]
     exc = lambda l: [o for o in l if o[3]]
     t = sb.tick()
-    kinds = ["content", "content-same-size", "touch", "touch-1ns", "add-file", "add-dir", "rm", "mv", "retype", "replace-inode", "add-link", "touch-dir"]
+    kinds = ["content", "content-same-size", "touch", "touch-1ns", "add-file", "add-dir", "rm", "mv", "retype", "retype-fifo", "replace-inode", "add-link", "touch-dir"]
     if pats:
         kinds += ["excluded-content", "excluded-add-keep", "excluded-add", "excluded-rm-keep"] * 2
     else:
@@ -481,6 +492,14 @@ def gen_edit(rng, sb, family, pats):
         else:
             spec = dict(k="p") if o[1] != "p" else dict(k="f", data="was a fifo")
         return dict(op="retype", path=o[0], spec=spec, dir_t=sb.tick()), kind
+    if kind == "retype-fifo":
+        # a type change between two kinds that are not directories: regular file <-> fifo, same name, preferably deep
+        cands = vis([o for o in inner if o[1] in ("f", "p")])
+        deep = [o for o in cands if o[2] >= 2]
+        o = pick(rng, deep or cands)
+        if not o: return None
+        spec = dict(k="p") if o[1] == "f" else dict(k="f", data="was a fifo")
+        return dict(op="retype", path=o[0], spec=spec, dir_t=sb.tick()), ("file-to-fifo" if o[1] == "f" else "fifo-to-file")
     if kind == "replace-inode":
         o = pick(rng, vis(files))
         if not o: return None
@@ -698,6 +717,30 @@ def corpus():
     out.append(dict(name="ancestor-link-absolute", family="core", pats=[], absolute=True, init=d(("a", f()), ("sub", d(("up", dict(k="l", to="..")), ("b", f())))), steps=[
         dict(labels=["content"], ops=[dict(op="write", path="tree/sub/b", data="changed", t=T0 + 918 * STEP_NS)]),
         dict(labels=["nothing"], ops=[])]))
+    # seeded C12-2: a type change between two non-directory kinds must re-run the structure command (mode & S_IFMT)
+    for pats_ in ([], ["*.tmp"]):
+        out.append(dict(name="file-fifo-retype" + ("-filtered" if pats_ else ""), family="core", pats=pats_,
+                        init=d(("a", f()), ("sub", d(("deep", d(("d", f("1")), ("x.tmp", f()))), ("q", dict(k="p"))))), steps=[
+            dict(labels=["content (deep)"], ops=[dict(op="write", path="tree/sub/deep/d", data="22", t=T0 + 920 * STEP_NS)]),
+            dict(labels=["file-to-fifo (deep)"], ops=[dict(op="retype", path="tree/sub/deep/d", spec=dict(k="p"), dir_t=T0 + 921 * STEP_NS)]),
+            dict(labels=["nothing"], ops=[]),
+            dict(labels=["fifo-to-file (deep)"], ops=[dict(op="retype", path="tree/sub/deep/d", spec=f("back"), dir_t=T0 + 922 * STEP_NS)]),
+            dict(labels=["fifo-to-file"], ops=[dict(op="retype", path="tree/sub/q", spec=f("q"), dir_t=T0 + 923 * STEP_NS)])]))
+    # seeded C12-1: patterns with a backslash escape and no glob character hide exactly the escaped name
+    out.append(dict(name="backslash-patterns", family="core", pats=["\\.cache", "a\\*b", "k"],
+                    init=d(("a", f()), (".cache", d(("obj", f("o")))), ("sub", d(("a*b", f("star")), ("axb", f("x")), ("k", f("k"))))), steps=[
+        dict(labels=["excluded-content (.cache/obj)"], ops=[dict(op="write", path="tree/.cache/obj", data="oo", t=T0 + 930 * STEP_NS)]),
+        dict(labels=["excluded-content (a*b)"], ops=[dict(op="write", path="tree/sub/a*b", data="stars", t=T0 + 931 * STEP_NS)]),
+        dict(labels=["excluded-add (.cache in sub)"], ops=[dict(op="add", path="tree/sub/.cache", spec=f(), dir_t=T0 + 932 * STEP_NS)]),
+        dict(labels=["excluded-rm (.cache in sub)"], ops=[dict(op="rm", path="tree/sub/.cache", dir_t=T0 + 933 * STEP_NS)]),
+        dict(labels=["content (axb is not hidden by a\\*b)"], ops=[dict(op="write", path="tree/sub/axb", data="xx", t=T0 + 934 * STEP_NS)]),
+        dict(labels=["excluded-rm (.cache), root mtime restored"], ops=[dict(op="rm", path="tree/.cache", dir="keep")])]))
+    out.append(dict(name="bracket-patterns", family="core", pats=["skip[0-9]", "[!a-y]*"],
+                    init=d(("a", f()), ("skip1", f("s")), ("zz", f("z")), ("sub", d(("skipx", f("v")), ("m.c", f("m"))))), steps=[
+        dict(labels=["excluded-content (skip1)"], ops=[dict(op="write", path="tree/skip1", data="ss", t=T0 + 935 * STEP_NS)]),
+        dict(labels=["excluded-content (zz)"], ops=[dict(op="write", path="tree/zz", data="zzz", t=T0 + 936 * STEP_NS)]),
+        dict(labels=["content (skipx is visible)"], ops=[dict(op="write", path="tree/sub/skipx", data="vv", t=T0 + 937 * STEP_NS)]),
+        dict(labels=["excluded-add (skip7)"], ops=[dict(op="add", path="tree/sub/skip7", spec=f(), dir_t=T0 + 938 * STEP_NS)])]))
     # D1 (known): chmod only
     out.append(dict(name="chmod-only", family="mode", pats=[], init=d(("a.txt", f()), ("sub", d(("b", f())))), steps=[
         dict(labels=["chmod"], ops=[dict(op="chmod", path="tree/sub/b", mode=0o600)]),
@@ -739,8 +782,9 @@ def corpus():
 # ------------------------------------------------------------------ glob (trusted instantiation of `matches`) against Python's fnmatch
 
 def check_glob(chk, model):
-    names = FILE_NAMES + DIR_NAMES + ["", "x", "xtmp", ".tmp", "a.tmpx", "skip", "skip12", "n  .tmp"]
-    pats = sorted(set(p for ps in PATTERN_SETS for p in ps) | {"*", "?", "??", "*.*", "a*b*", "*p", "s*?"})
+    names = FILE_NAMES + DIR_NAMES + ["", "x", "xtmp", ".tmp", "a.tmpx", "skip", "skip12", "n  .tmp", "axb", "a\\*b", "b\\\\c", "bc", "[", "]", "[ab]", "-", "!", "^", "\\"]
+    pats = sorted(set(p for ps in PATTERN_SETS for p in ps) | {"*", "?", "??", "*.*", "a*b*", "*p", "s*?", "\\*", "\\?", "a\\", "\\\\", "[", "[a", "[]]", "[!]]", "[^a]*",
+                                                              "[a-c]", "[a\\-c]", "[]-]", "[--0]", "*[.]*", "[!.]*", "\\[ab\\]", "[[]", "k", ".cache", "\\a"})
     reqs = ["excluded %s %s" % (hx(p.encode()), hx(n.encode())) for p in pats for n in names]
     rc, out, err = vlib.run_lines(model, reqs)
     bad = []
@@ -748,12 +792,13 @@ def check_glob(chk, model):
     for p in pats:
         for n in names:
             chk.count()
-            if (out[i] == "1") != fnmatch.fnmatchcase(n, p):
-                bad.append(dict(pattern=p, name=n, model=out[i], python=fnmatch.fnmatchcase(n, p)))
+            want = c_fnmatch(p, n)
+            if (out[i] == "1") != want:
+                bad.append(dict(pattern=p, name=n, model=out[i], libc=want))
             i += 1
     if bad:
-        chk.violation("glob-correspondence", "the glob that instantiates `matches` in ocaml/vmodel_dirtree.ml disagrees with fnmatch on %d (pattern, name) pairs" % len(bad),
-                      dict(examples=bad[:5]), found_input=False, broken="trusted instantiation of matches (ocaml/vmodel_dirtree.ml glob)")
+        chk.violation("glob-correspondence", "the glob that instantiates `matches` in ocaml/vmodel_dirtree.ml disagrees with libc fnmatch on %d (pattern, name) pairs" % len(bad),
+                      dict(examples=bad[:8]), found_input=False, broken="trusted instantiation of matches (ocaml/vmodel_dirtree.ml glob)")
     chk.cov["glob_pairs"] = len(reqs)
 
 # ------------------------------------------------------------------ entry points
@@ -840,7 +885,7 @@ def run(chk):
     chk.assumptions = ["default file-system mode (stat records: device, inode, mode, size, mtime; no checksums)",
                        "the database holds no values for paths that were absent in the previous build (two-tree formulation of rebuild)",
                        "an inode never changes its file type (same device+inode+size+mtime implies same S_IFMT bits)",
-                       "fnmatch is a Section variable (matches) in the theorems; the extracted model instantiates it with a byte-wise glob ('*', '?', literals) checked against Python's fnmatch on the generated names",
+                       "fnmatch is a Section variable (matches) in the theorems; the extracted model instantiates it with a byte-wise glob ('*', '?', literals) checked against libc fnmatch on the generated patterns and names",
                        "llvm::hash_combine chain idealised: one collision-free 64-bit function of the sequence of combined items on the finite set of sequences that occur (hash_good)",
                        "every build is a new process over one database (--db); the model threads one database state"]
     return chk.finish(level="proof",
@@ -848,7 +893,7 @@ def run(chk):
                            "materialised with explicit distinct mtimes, then 3-5 batches of 1-3 edits (content with/without size change, mtime-only incl. +1ns, add/remove/rename/move/retype, replace inode, chmod, edits inside excluded names, directory mtime bumped or restored, link<->file, root removed/retyped), "
                            "each followed by a build in a fresh process; with and without content-exclusion-patterns. Every build's 'ran again?' for the tree and the structure command is compared with the extracted model and with the snapshot oracle. "
                            "non-trivial = builds where the oracle demands a re-run of at least one command; distinct by (family, filtered?, edit labels, outcome)",
-                      trusted=["hand-written model coq/BSys/DirTree.v tied by correspondence at the CLI only", "Python os.lstat/os.stat/os.listdir/realpath as independent observer",
+                      trusted=["hand-written model coq/BSys/DirTree.v tied by correspondence at the CLI only", "Python os.lstat/os.stat/os.listdir/realpath and libc fnmatch (ctypes) as independent observers",
                                "fnmatch is a Section variable (matches); extracted model uses the glob of ocaml/vmodel_dirtree.ml", "ideal hash: hash_good premise of the signature-level theorems",
                                "extraction (ExtrOcamlBasic) + ocaml/vmodel_dirtree.ml"])
 
